@@ -62,6 +62,8 @@ type vProcT struct {
 	crashed   chan struct{} // closed when the processor goroutine panicked (the real worker would exit 3)
 	tainted   map[string]bool
 	snap      map[*App]vSnap // the applications' timestamps as corrected at the start of the previous op
+	genErrs   int            // requests whose body could not be generated (they failed at once)
+	genSeen   int            // ... of which the processor's extra turn has been collected
 	slowHold  chan struct{}  // non-nil: the processor loop is inside AggregateInto of a slow transaction, waiting for this
 	prevStart time.Time
 	prevEnd   time.Time
@@ -102,7 +104,29 @@ func (v *vProcT) compensate() {
 	v.prevStart = now
 }
 
+// settleGenErrs collects the processor's turns for requests that failed at once because their body could not be generated
+func (v *vProcT) settleGenErrs() {
+	for k := 0; k < 3; k++ {
+		vQuiesce()
+		v.mu.Lock()
+		n := v.genErrs - v.genSeen
+		v.genSeen = v.genErrs
+		v.mu.Unlock()
+		if n == 0 {
+			return
+		}
+		for i := 0; i < n; i++ {
+			if !v.tick() {
+				return
+			}
+		}
+	}
+}
+
 func (v *vProcT) noteApps() {
+	if v == vProc {
+		v.settleGenErrs()
+	}
 	// the AppHarvest of every run ever seen: a tick of a timer of a run that has been shut down may still be on its way
 	for id, ah := range v.p.harvests {
 		v.ahs[string(id)] = ah
@@ -165,6 +189,11 @@ func vProcShutdown() {
 func (v *vProcT) Execute(cmd *collector.RpmCmd, cs collector.RpmControls) collector.RPMResponse {
 	data, err := cs.Collectible.CollectorJSON(false)
 	if err != nil {
+		// the body cannot be generated (a non-finite metric value, say): the request fails at once, and the processor will take
+		// one more turn to handle that failure
+		v.mu.Lock()
+		v.genErrs++
+		v.mu.Unlock()
 		return collector.RPMResponse{Err: err}
 	}
 	cmd.Data = data
@@ -478,6 +507,14 @@ func (v *vProcT) tick() bool {
 	}
 }
 
+// stuckOrCrashed: what to report when the processor did not complete its turn
+func (v *vProcT) stuckOrCrashed() string {
+	if v.isCrashed() {
+		return "processor-crashed"
+	}
+	return "stuck"
+}
+
 func (v *vProcT) isCrashed() bool {
 	select {
 	case <-v.crashed:
@@ -528,6 +565,7 @@ func (v *vProcT) finishSlow() bool {
 type vSpy struct {
 	p      *Processor
 	queued int
+	apps   bool // forward application messages to the processor too
 }
 
 func (s *vSpy) IncomingTxnData(id AgentRunID, sample AggregaterInto) {
@@ -536,6 +574,9 @@ func (s *vSpy) IncomingTxnData(id AgentRunID, sample AggregaterInto) {
 }
 func (s *vSpy) IncomingSpanBatch(b SpanBatch) { s.queued++; s.p.IncomingSpanBatch(b) }
 func (s *vSpy) IncomingAppInfo(id *AgentRunID, info *AppInfo) AppInfoReply {
+	if s.apps {
+		return s.p.IncomingAppInfo(id, info)
+	}
 	return AppInfoReply{State: AppStateUnknown} // app messages are answered without involving the processor here
 }
 
@@ -894,7 +935,10 @@ func vBuildTxn(run string, t []string) []byte {
 	logs := vec("le", protocol.TransactionStartLogEventsVector)
 	errEvs := vec("ee", protocol.TransactionStartErrorEventsVector)
 	var pkgs flatbuffers.UOffsetT
-	if ps, ok := vKV(t, "pkgs"); ok {
+	if raw, ok := vKV(t, "pkgsraw"); ok {
+		// a package list of any shape, verbatim (well-framed message, hostile content)
+		pkgs = protocol.EncodeEvent(b, vUnhex(raw))
+	} else if ps, ok := vKV(t, "pkgs"); ok {
 		var items []string
 		if ps != "" && ps != "-" {
 			for _, p := range strings.Split(ps, ",") {
@@ -1112,6 +1156,14 @@ func vProcOp(t []string) string {
 		return "stuck"
 	}
 	switch op {
+	case "pending":
+		// diagnostic: is the processor waiting to report a turn nobody has collected?
+		select {
+		case <-v.p.trackProgress:
+			return "pending=1"
+		case <-time.After(100 * time.Millisecond):
+			return "pending=0"
+		}
 	case "slowtxn":
 		// proc slowtxn <run> <txn spec>: a transaction whose aggregation takes a while; the op returns while the processor
 		// loop is inside it.  The next op (cleanexit: the termination request arrives now) or its start releases it.
@@ -1235,10 +1287,11 @@ func vProcOp(t []string) string {
 				}
 			}
 			conn := &vChunkConn{chunks: chunks}
+			spy := &vSpy{p: v.p, apps: true}
 			done := make(chan struct{})
 			go func() {
 				defer close(done)
-				serve(conn, CommandsHandler{Processor: v.p})
+				serve(conn, CommandsHandler{Processor: spy})
 			}()
 			// the appinfo is answered first (the handler blocks on the reply), then the processor reports progress
 			if !v.tick() {
@@ -1248,6 +1301,13 @@ func vProcOp(t []string) string {
 			case <-done:
 			case <-time.After(vWatchdog):
 				return "stuck"
+			}
+			// the bytes after the App message may, by chance, decode as a transaction or a span batch (for a run nobody
+			// holds): the processor then takes one more turn for each
+			for i := 0; i < spy.queued; i++ {
+				if !v.tick() {
+					return "stuck"
+				}
 			}
 			rep := "noreply"
 			if len(conn.written) >= 8 {
@@ -1261,7 +1321,7 @@ func vProcOp(t []string) string {
 		cp := *info
 		reply := v.p.IncomingAppInfo(id, &cp)
 		if !v.tick() {
-			return "stuck"
+			return v.stuckOrCrashed()
 		}
 		return fmt.Sprintf("reply=%s reqs=%s", vDecodeAppReply(MarshalAppInfoReply(reply)), v.collect(vExpect(t)))
 	case "txn":
@@ -1280,7 +1340,7 @@ func vProcOp(t []string) string {
 			return "stuck"
 		}
 		if !v.tick() {
-			return "stuck"
+			return v.stuckOrCrashed()
 		}
 		return "ok"
 	case "latetrigger":
@@ -1297,7 +1357,7 @@ func vProcOp(t []string) string {
 			return "stuck"
 		}
 		if !v.tick() {
-			return "stuck"
+			return v.stuckOrCrashed()
 		}
 		return "reqs=" + v.collect(vExpect(t))
 	case "trigger":
@@ -1313,7 +1373,7 @@ func vProcOp(t []string) string {
 			return "stuck"
 		}
 		if !v.tick() {
-			return "stuck"
+			return v.stuckOrCrashed()
 		}
 		return "reqs=" + v.collect(vExpect(t))
 	case "reply":
